@@ -301,3 +301,23 @@ package j5convert
 //@ func buildField
 //@   ensures key.accept: typeis(node.Schema, *schema_j5pb.Field_Key) && keyField(node) != nil && keyFormatKnown(keyField(node)) ==> result1 == nil
 //@   ensures leaf.accept: (typeis(node.Schema, *schema_j5pb.Field_String_) && strField(node) != nil) || (typeis(node.Schema, *schema_j5pb.Field_Bool) && boolField(node) != nil) || (typeis(node.Schema, *schema_j5pb.Field_Bytes) && bytesField(node) != nil) ==> result1 == nil
+
+// ---- field type table (C02): the proto type of each j5s field type ------------------------------------
+//@ spec func fType(d *descriptorpb.FieldDescriptorProto) descriptorpb.FieldDescriptorProto_Type = *d.Type
+//@ func buildField
+//@   ensures type.string: result1 == nil && (typeis(node.Schema, *schema_j5pb.Field_String_) || typeis(node.Schema, *schema_j5pb.Field_Key)) ==> result0.Type != nil && fType(result0) == descriptorpb.FieldDescriptorProto_TYPE_STRING
+//@   ensures type.bool: result1 == nil && typeis(node.Schema, *schema_j5pb.Field_Bool) ==> result0.Type != nil && fType(result0) == descriptorpb.FieldDescriptorProto_TYPE_BOOL
+//@   ensures type.bytes: result1 == nil && typeis(node.Schema, *schema_j5pb.Field_Bytes) ==> result0.Type != nil && fType(result0) == descriptorpb.FieldDescriptorProto_TYPE_BYTES
+//@   ensures type.int32: result1 == nil && isIntF(node, schema_j5pb.IntegerField_FORMAT_INT32) ==> result0.Type != nil && fType(result0) == descriptorpb.FieldDescriptorProto_TYPE_INT32
+//@   ensures type.int64: result1 == nil && isIntF(node, schema_j5pb.IntegerField_FORMAT_INT64) ==> result0.Type != nil && fType(result0) == descriptorpb.FieldDescriptorProto_TYPE_INT64
+//@   ensures type.uint32: result1 == nil && isIntF(node, schema_j5pb.IntegerField_FORMAT_UINT32) ==> result0.Type != nil && fType(result0) == descriptorpb.FieldDescriptorProto_TYPE_UINT32
+//@   ensures type.uint64: result1 == nil && isIntF(node, schema_j5pb.IntegerField_FORMAT_UINT64) ==> result0.Type != nil && fType(result0) == descriptorpb.FieldDescriptorProto_TYPE_UINT64
+//@   ensures type.enum: result1 == nil && typeis(node.Schema, *schema_j5pb.Field_Enum) ==> result0.Type != nil && fType(result0) == descriptorpb.FieldDescriptorProto_TYPE_ENUM && result0.TypeName != nil
+//@   ensures type.message: result1 == nil && (typeis(node.Schema, *schema_j5pb.Field_Object) || typeis(node.Schema, *schema_j5pb.Field_Oneof) || typeis(node.Schema, *schema_j5pb.Field_Date) || typeis(node.Schema, *schema_j5pb.Field_Decimal) || typeis(node.Schema, *schema_j5pb.Field_Timestamp) || typeis(node.Schema, *schema_j5pb.Field_Any))
+//@   |   ==> result0.Type != nil && fType(result0) == descriptorpb.FieldDescriptorProto_TYPE_MESSAGE && result0.TypeName != nil
+//@   ensures type.wkt: result1 == nil ==> (typeis(node.Schema, *schema_j5pb.Field_Date) ==> *result0.TypeName == ".j5.types.date.v1.Date") && (typeis(node.Schema, *schema_j5pb.Field_Decimal) ==> *result0.TypeName == ".j5.types.decimal.v1.Decimal")
+//@   |   && (typeis(node.Schema, *schema_j5pb.Field_Timestamp) ==> *result0.TypeName == ".google.protobuf.Timestamp") && (typeis(node.Schema, *schema_j5pb.Field_Any) ==> *result0.TypeName == ".j5.types.any.v1.Any")
+//@ spec func isIntF(node sourcewalk.FieldNode, f schema_j5pb.IntegerField_Format) bool = typeis(node.Schema, *schema_j5pb.Field_Integer) && as(*schema_j5pb.Field_Integer, node.Schema) != nil && intField(node) != nil && intField(node).Format == f
+//@ func (TypeRef).protoTypeName
+//@   modifies fresh:result
+//@   ensures result != nil
